@@ -305,6 +305,7 @@ static int pump(void) {
  * the epoll_wait wrap (so libcoap's own waits -- coap_client_delay_first during the CSM exchange -- make progress).  On
  * loopback a send() has queued the bytes at the peer when it returns, so the order of events is a function of the scan order. */
 static int tcp_on;
+#define AF_STREAM(p) ((p) == COAP_PROTO_TCP || (p) == COAP_PROTO_WS)
 static int tcp_sock_ready(coap_socket_t *sock, struct epoll_event *ev, int wait_ms) {
   struct pollfd pf;
   if (sock->fd < 0) return 0;
@@ -326,10 +327,10 @@ static int tcp_ready(coap_context_t *c, struct epoll_event *ev, int wait_ms) {
   coap_endpoint_t *e;
   if (!c) return 0;
   LL_FOREACH(c->endpoint, e) {
-    if (e->proto == COAP_PROTO_TCP && tcp_sock_ready(&e->sock, ev, wait_ms)) return 1;
-    SESSIONS_ITER(e->sessions, s, tmp) if (s->proto == COAP_PROTO_TCP && tcp_sock_ready(&s->sock, ev, wait_ms)) return 1;
+    if (AF_STREAM(e->proto) && tcp_sock_ready(&e->sock, ev, wait_ms)) return 1;
+    SESSIONS_ITER(e->sessions, s, tmp) if (AF_STREAM(s->proto) && tcp_sock_ready(&s->sock, ev, wait_ms)) return 1;
   }
-  SESSIONS_ITER(c->sessions, s, tmp) if (s->proto == COAP_PROTO_TCP && tcp_sock_ready(&s->sock, ev, wait_ms)) return 1;
+  SESSIONS_ITER(c->sessions, s, tmp) if (AF_STREAM(s->proto) && tcp_sock_ready(&s->sock, ev, wait_ms)) return 1;
   return 0;
 }
 /* Nothing is in flight between the two contexts: no connect pending, every byte written has reached the peer's socket
@@ -341,11 +342,11 @@ static int tcp_quiescent(void) {
   coap_endpoint_t *e;
   unsigned nc = 0, ns = 0;
   int v;
-  if (cli) SESSIONS_ITER(cli->sessions, s, tmp) if (s->proto == COAP_PROTO_TCP) {
+  if (cli) SESSIONS_ITER(cli->sessions, s, tmp) if (AF_STREAM(s->proto)) {
     if (s->sock.flags & COAP_SOCKET_WANT_CONNECT) return 0;
     if (s->sock.flags & COAP_SOCKET_CONNECTED) { nc++; v = 0; if (!ioctl(s->sock.fd, SIOCOUTQ, &v) && v > 0) return 0; }
   }
-  if (srv) LL_FOREACH(srv->endpoint, e) SESSIONS_ITER(e->sessions, s, tmp) if (s->proto == COAP_PROTO_TCP) {
+  if (srv) LL_FOREACH(srv->endpoint, e) SESSIONS_ITER(e->sessions, s, tmp) if (AF_STREAM(s->proto)) {
     if (s->sock.flags & COAP_SOCKET_CONNECTED) { ns++; v = 0; if (!ioctl(s->sock.fd, SIOCOUTQ, &v) && v > 0) return 0; }
   }
   return nc == ns;
@@ -1418,7 +1419,8 @@ static void hnd_tput(coap_resource_t *r, coap_session_t *s, const coap_pdu_t *re
   const uint8_t *data = NULL;
   (void)r; (void)s; (void)q;
   s_req++;
-  if (coap_get_data(req, &len, &data) && (len == 400 || len == 1200) && !memcmp(data, body, len)) tcp_put_ok++; else tcp_put_bad++;
+  if (coap_get_data(req, &len, &data) && (len == 400 || len == 1200) && !memcmp(data, body, len)) tcp_put_ok++; else { tcp_put_bad++;
+    if (getenv("H_DEBUG")) { size_t i = 0; while (data && i < len && data[i] == body[i]) i++; fprintf(stderr, "TPUT-BAD len=%zu first-mismatch=%zu\n", len, i); } }
   coap_pdu_set_code(rsp, COAP_RESPONSE_CODE_CHANGED);
 }
 static void tcp_send(coap_session_t *s, int code, int tokb, const char *path, size_t plen) {
@@ -1443,18 +1445,42 @@ static void tcp_world_down(void) {
   if (ts2) coap_session_release(ts2);
   ts1 = ts2 = NULL; tep = NULL;
 }
-static void scn_tcp(void) {
+/* wsp: the second session's socket takes only half of every large write (a non-blocking socket with a full send buffer):
+ * coap_ws_write keeps the progress within the frame, the rest goes out when the socket is writable again, and the server
+ * gets the frame's payload in several reads (coap_ws_read keeps what it has in ws->rx_data) */
+static ssize_t wsp_write(coap_session_t *session, const uint8_t *data, size_t datalen) {
+  ssize_t r = coap_netif_strm_write(session, data, datalen > 300 ? datalen / 2 : datalen);
+  if (r >= 0 && (size_t)r < datalen) {
+    /* what coap_socket_write does after a short send(): ask for the socket to become writable (coap_send_pdu queues
+     * later messages behind the unfinished one while this flag is set) */
+    session->sock.flags |= COAP_SOCKET_WANT_WRITE;
+    coap_epoll_ctl_mod(&session->sock, EPOLLOUT | ((session->sock.flags & COAP_SOCKET_WANT_READ) ? EPOLLIN : 0), __func__);
+  }
+  return r;
+}
+static int ws_split;
+static void scn_stream(coap_proto_t proto) {
   coap_address_t a;
   ts1 = ts2 = NULL; tep = NULL; tcp_put_ok = tcp_put_bad = 0;
   tcp_on = 1;
   if (!world_up(0, 0)) { out_put("setup-fail"); return; }
   if (!add_res("tput", COAP_REQUEST_PUT, hnd_tput, 0, NULL)) { out_put("setup-fail"); return; }
   sim_addr(&a, 0);
-  tep = coap_new_endpoint(srv, &a, COAP_PROTO_TCP);
+  tep = coap_new_endpoint(srv, &a, proto);
   if (!tep) { out_put("tcp-ep-fail"); return; }
   a = tep->bind_addr;
-  ts1 = coap_new_client_session(cli, NULL, &a, COAP_PROTO_TCP);
-  ts2 = coap_new_client_session(cli, NULL, &a, COAP_PROTO_TCP);
+  ts1 = coap_new_client_session(cli, NULL, &a, proto);
+  ts2 = coap_new_client_session(cli, NULL, &a, proto);
+  if (proto == COAP_PROTO_WS) {
+    /* CoAP over WebSockets: the HTTP upgrade (coap_ws_establish, coap_ws_rd_http_header) runs over the real loopback
+     * connection; session->ws, the frame buffer of coap_ws_write and the receive PDU of the WS branch of coap_read_session
+     * are inside the failure window */
+    static const uint8_t host[] = "localhost";
+    coap_str_const_t h = { sizeof(host) - 1, host };
+    if (ts1 && !coap_ws_set_host_request(ts1, &h)) out_put("nohost1");
+    if (ts2 && !coap_ws_set_host_request(ts2, &h)) out_put("nohost2");
+    if (ts2 && ws_split) ts2->sock.lfunc[COAP_LAYER_WS].l_write = wsp_write;
+  }
   out_put("sess%d%d", !!ts1, !!ts2);
   settle(30000);
   out_put("est%d%d/%u", ts1 && ts1->state == COAP_SESSION_STATE_ESTABLISHED, ts2 && ts2->state == COAP_SESSION_STATE_ESTABLISHED,
@@ -1476,6 +1502,10 @@ static void scn_tcp(void) {
     out_put("up%d", asked);
   }
 }
+
+static void scn_tcp(void) { scn_stream(COAP_PROTO_TCP); }
+static void scn_ws(void) { ws_split = 0; scn_stream(COAP_PROTO_WS); }
+static void scn_wsp(void) { ws_split = 1; scn_stream(COAP_PROTO_WS); ws_split = 0; }
 
 /* the canary: with memory available a fresh CON GET /r must be answered 2.05 */
 static int canary_once(void) {
@@ -1545,7 +1575,7 @@ static const struct { const char *name; void (*fn)(void); } scns[] = {
   {"setup", scn_setup}, {"osc", scn_osc}, {"h508", scn_h508},
   {"wkc", scn_wkc}, {"b1raw", scn_b1raw}, {"b2raw", scn_b2raw}, {"obsblk", scn_obsblk}, {"cache", scn_cache}, {"async", scn_async},
   {"obsre", scn_obsre}, {"obsfetch", scn_obsfetch}, {"oscobs", scn_oscobs}, {"echo", scn_echo}, {"xtok", scn_xtok},
-  {"dly", scn_dly}, {"tcp", scn_tcp},
+  {"dly", scn_dly}, {"tcp", scn_tcp}, {"ws", scn_ws}, {"wsp", scn_wsp},
 };
 
 static void on_alarm(int sig) {
